@@ -397,6 +397,12 @@ class Assembler:
             self.in_assumed = True
             self.fn_contract(s, fp, ed, spec, fnname, False)
             self.in_assumed = False
+            # a `mut` binding on a by-value parameter is invisible to callers; Verus rejects `mut self`, so it is dropped
+            # from the signature of a function whose body is not verified here
+            for k in range(fp.k_popen + 1, fp.k_pclose):
+                if s.is_id(k, 'mut') and (s.is_p(k - 1, '(') or s.is_p(k - 1, ',')) and s.is_id(k + 1):
+                    ed.delete(s.t[k][1], s.t[k + 1][1])
+                    self.fired.add('6b:drop-mut-binding-in-assumed-signature')
             ed.replace(body_a + 1, body_b - 1, ' unimplemented!() ')
             ed.insert(item.start, '#[verifier::external_body]\n', order=-2)
             self.fired.add('11:assumed-contract(external_body)')
@@ -492,8 +498,9 @@ class Assembler:
         for ds in spec.get('desugar', []):
             import desugar
             ka, kb = fp.find_stmt(ds['stmt'], ds.get('n', 0))
-            ke = fp.stmt_end(kb)
-            a, b = s.t[ka][1], s.t[ke][1]
+            ke = fp.stmt_end(kb + 1)
+            a = s.t[ka][1]
+            b = s.t[ke][1] if s.is_p(ke, ';') else s.t[ke][2]
             new = desugar.desugar_stmt(s.text[a:b], ds.get('ops', '+-*/%'))
             ed.replace(a, b, new)
             self.fired.add('10:operator-desugar')
